@@ -3,7 +3,7 @@ import itertools
 from . import ipgen, linegen, textgen
 from .textcommon import TEXT_MODEL_DEPS as MODEL_DEPS, TEXT_TRUSTED as TRUSTED_BASE, TEXT_ASSUMPTIONS as ASSUMPTIONS  # noqa
 
-COQ_DEPS = ["lib/Str.v", "lib/Rx.v", "lib/RxFacts.v", "lib/RxSub.v", "gen/G_rx.v", "gen/G_text_consts.v", "model/TextModel.v", "model/JunModel.v", "model/JunProofs.v", "model/TextProofs.v", "lib/RxComplete.v", "lib/RxGroups.v", "gen/G_fn_sir.v", "model/EncProofs.v", "model/TotalProofs.v", "model/TotalIp.v", "lib/IpText.v", "model/IpModel.v", "model/IpModelFacts.v", "lib/MemoProofs.v"]
+COQ_DEPS = ["lib/Str.v", "lib/Rx.v", "lib/RxFacts.v", "lib/RxSub.v", "gen/G_rx.v", "gen/G_text_consts.v", "model/TextModel.v", "model/JunModel.v", "model/JunProofs.v", "model/TextProofs.v", "lib/RxComplete.v", "lib/RxGroups.v", "gen/G_fn_sir.v", "model/EncProofs.v", "model/TotalProofs.v", "model/TotalIp.v", "model/TotalWords.v", "model/TotalAs.v", "model/TotalLine.v", "model/SortProofs.v", "model/AsModel.v", "lib/IpText.v", "model/IpModel.v", "model/IpModelFacts.v", "lib/MemoProofs.v"]
 RULE = ("every corpus template x awkward secrets (backslashes, regex metacharacters, malformed $1$/$9$/$6$, near-IPv6 text, long quote/bracket runs, non-ASCII, control characters), random mutations of those lines, "
         "near-address tokens; all five features on and single-feature subsets; salts with every kind of first character (alphabet, outside, empty, non-ASCII); any exception on the implementation is a violation; "
         "non-trivial = a distinct hostile line")
